@@ -226,6 +226,8 @@ def c_member(t, name, pfx, local):
         return '%s %s' % (t[1], name)
     if k == 'bits':
         return '%s %s : %d' % (BASIC[t[1]][0], name, t[2])
+    if k == 'void':
+        return 'void %s' % name          # not valid C; shown in reports only
     if k == 'anon':
         body = ' '.join(c_member(x, 'n%d' % i, pfx, local) + ';' for i, x in enumerate(t[2]))
         return '%s { %s } %s' % ('union' if t[1] else 'struct', body, name)
